@@ -83,8 +83,8 @@ func (c *ctx) addID(engine string, idx int, id, origin string) {
 		c.ids[id] = origin
 	}
 	c.imu.Unlock()
-	if !dup {
-		c.r.Distinct("id|" + id)
+	if !dup && engine == "ids" {
+		c.r.Distinct("id|" + id) // one evaluation per script in the ids engine; other engines count their own cases
 	}
 	if dup {
 		c.violate(engine, idx, "id-repeated", fmt.Sprintf("script ID %q was handed out twice in one run (%s, earlier %s)", id, origin, prev), map[string]any{"id": id, "first": prev, "second": origin})
@@ -1309,6 +1309,7 @@ func (c *ctx) templateSequence(seq, steps int) {
 			}
 		}
 	}
+	r.Eval(1) // the history as a whole, besides its steps
 	r.Distinct("tmpl-history|" + strings.Join(sig, ","))
 	r.Sample("template-history", map[string]any{"sequence": seq, "steps": steps, "first_steps": hist})
 }
